@@ -262,6 +262,12 @@ func (eng *Engine) modifiesVars(m *CExpr, fn *ssa.Function, s *sorts) (map[strin
 func (eng *Engine) staticTypeOf(e *CExpr, fn *ssa.Function) (types.Type, error) {
 	switch e.Op {
 	case "id":
+		if fn == nil {
+			if t, err := eng.resolveType(e.Name, nil); err == nil {
+				return t, nil
+			}
+			return nil, fmt.Errorf("unknown identifier %s", e.Name)
+		}
 		for _, p := range fn.Params {
 			if p.Name() == e.Name {
 				return p.Type(), nil
@@ -527,6 +533,9 @@ func (eng *Engine) callEffects(c *ssa.CallCommon, s *sorts, res *Effects, walk f
 	if eng.libraryFuncField(c.Value) != "" {
 		return
 	}
+	if eng.extFuncCall(c) {
+		return
+	}
 	// dynamic call through a function value of unknown origin
 	res.All = true
 }
@@ -685,4 +694,119 @@ func (eng *Engine) EffectsString(fn *ssa.Function) string {
 	}
 	sort.Strings(ns)
 	return fmt.Sprintf("all=%v %v", e.All, ns)
+}
+
+// extFuncCall: the enclosing function's contract declares the called variable to hold a library function
+func (eng *Engine) extFuncCall(c *ssa.CallCommon) bool {
+	ins, ok := c.Value.(ssa.Instruction)
+	var fn *ssa.Function
+	if ok {
+		fn = ins.Parent()
+	} else if p, ok := c.Value.(*ssa.Parameter); ok {
+		fn = p.Parent()
+	} else if fv, ok := c.Value.(*ssa.FreeVar); ok {
+		fn = fv.Parent()
+	}
+	if fn == nil {
+		return false
+	}
+	fc := eng.ContractOf(fn)
+	if fc == nil || fc.Flags["extfunc"] == "" {
+		return false
+	}
+	g := &vcgen{fn: fn}
+	name := g.sourceNameOf(c.Value)
+	return name != "" && flagHas(fc.Flags["extfunc"], name)
+}
+
+// EventEffects: the ghost events the body of fn (and everything it calls inside the module) may emit.
+// Always computed from the code, never from contracts. all=true: a dynamic call may emit anything.
+func (eng *Engine) EventEffects(f *ssa.Function) (map[string]bool, bool) {
+	if r, ok := eng.eventEff[f]; ok {
+		out := map[string]bool{}
+		for k := range r.evs {
+			out[k] = true
+		}
+		return out, r.all
+	}
+	res := &eventSet{evs: map[string]bool{}}
+	visited := map[*ssa.Function]bool{}
+	var walk func(fn *ssa.Function)
+	walk = func(fn *ssa.Function) {
+		if visited[fn] || fn.Blocks == nil || !eng.InModule(fn) {
+			return
+		}
+		visited[fn] = true
+		for _, b := range fn.Blocks {
+			for _, ins := range b.Instrs {
+				ci, ok := ins.(ssa.CallInstruction)
+				if !ok {
+					continue
+				}
+				if _, isGo := ins.(*ssa.Go); isGo {
+					continue
+				}
+				c := ci.Common()
+				for _, ev := range eng.eventsFor(c) {
+					res.evs[ev.Name] = true
+				}
+				switch {
+				case c.IsInvoke():
+					if eng.ifaceContract(c) != nil {
+						continue
+					}
+					// interfaces declared outside the module: library implementations cannot emit module events;
+					// module types implementing the interface are walked like any other callee
+					for _, t := range eng.Implementers(c.Value.Type().Underlying().(*types.Interface), typeName(c.Value.Type())) {
+						if m := eng.MethodOf(t, c.Method.Name(), c.Method.Pkg()); m != nil {
+							walk(m)
+						}
+					}
+				case c.StaticCallee() != nil:
+					walk(c.StaticCallee())
+				default:
+					if _, isB := c.Value.(*ssa.Builtin); isB {
+						continue
+					}
+					if mc, ok := c.Value.(*ssa.MakeClosure); ok {
+						if cf, ok := mc.Fn.(*ssa.Function); ok {
+							walk(cf)
+							continue
+						}
+					}
+					if eng.funcFieldContract(c.Value) != nil || eng.libraryFuncField(c.Value) != "" || eng.extFuncCall(c) {
+						continue
+					}
+					res.all = true
+					res.why = append(res.why, fn.String()+": dynamic call "+c.String())
+				}
+			}
+		}
+	}
+	walk(f)
+	if eng.eventEff == nil {
+		eng.eventEff = map[*ssa.Function]*eventSet{}
+	}
+	eng.eventEff[f] = res
+	out := map[string]bool{}
+	for k := range res.evs {
+		out[k] = true
+	}
+	return out, res.all
+}
+
+type eventSet struct {
+	evs map[string]bool
+	all bool
+	why []string
+}
+
+func (eng *Engine) EventEffectsString(fn *ssa.Function) string {
+	evs, all := eng.EventEffects(fn)
+	var ns []string
+	for n := range evs {
+		ns = append(ns, n)
+	}
+	sort.Strings(ns)
+	return fmt.Sprintf("all=%v %v why=%v", all, ns, eng.eventEff[fn].why)
 }
